@@ -1,5 +1,6 @@
 import GV.Model.ConnSetup
 import GV.Gen.ConnProtocols
+import GV.Gen.ConnSetupFacts
 /-!
 C17 — Connection roles and diffusion modes gate what is accepted.
 
@@ -29,6 +30,47 @@ theorem find_none_of_no_role (ids : List (String × Nat)) (l : List (Proto × Ro
   have := h p hp
   simp [this]
 
+/-- membership in `registered`, spelled out -/
+theorem mem_registered (c : Cfg) (p : Proto) (r : Role) :
+    (p, r) ∈ registered c ↔
+      (p = .handshake ∧ r = (if c.server then Role.responder else Role.initiator)) ∨
+      (serverSide c = true ∧ r = .responder ∧ p ∈ constructed c) ∨
+      ((clientSide c && !c.delayStart) = true ∧ r = .initiator ∧ p ∈ constructed c ∧
+        (p ≠ .keepAlive ∨ c.sendKeepAlives = true)) := by
+  unfold registered
+  simp only [List.mem_append, List.mem_cons, List.not_mem_nil, or_false, Prod.mk.injEq]
+  constructor
+  · rintro ((h | h) | h)
+    · exact Or.inl h
+    · right; left
+      split at h
+      · rename_i hs
+        obtain ⟨n, hn, hq⟩ := List.mem_map.mp h
+        simp only [Prod.mk.injEq] at hq
+        exact ⟨hs, hq.2.symm, hq.1 ▸ hn⟩
+      · simp at h
+    · right; right
+      split at h
+      · rename_i hs
+        obtain ⟨n, hn, hq⟩ := List.mem_map.mp h
+        simp only [Prod.mk.injEq] at hq
+        have hf := List.mem_filter.mp hn
+        refine ⟨hs, hq.2.symm, hq.1 ▸ hf.1, ?_⟩
+        have h2 := hf.2
+        simp only [Bool.or_eq_true, bne_iff_ne, ne_eq] at h2
+        rw [← hq.1]; exact h2
+      · simp at h
+  · rintro (h | ⟨hs, hr, hp⟩ | ⟨hs, hr, hp, hk⟩)
+    · exact Or.inl (Or.inl h)
+    · left; right
+      simp only [hs, ↓reduceIte]
+      exact List.mem_map.mpr ⟨p, hp, by rw [hr]⟩
+    · right
+      simp only [hs, ↓reduceIte]
+      refine List.mem_map.mpr ⟨p, List.mem_filter.mpr ⟨hp, ?_⟩, by rw [hr]⟩
+      simp only [Bool.or_eq_true, bne_iff_ne, ne_eq]
+      exact hk
+
 /-- **Initiator-only.** On a connection that is not a server and did not negotiate duplex
     operation, a request segment (response bit clear) with any protocol id is never delivered:
     the muxer reports an error. For every id table and every version-flag valuation. -/
@@ -45,14 +87,12 @@ theorem initiator_only_never_delivers_request (ids : List (String × Nat)) (c : 
     have hnone : (registered c).find? (fun p => idOf ids p.1.key == some field && p.2 == Role.responder) = none := by
       apply find_none_of_no_role
       intro p hp
-      unfold registered at hp
-      simp only [hs, serverSide, hdup, Bool.or_self, Bool.false_eq_true, ↓reduceIte, List.append_nil,
-        List.mem_append, List.mem_cons, List.not_mem_nil, or_false] at hp
-      rcases hp with rfl | hp
-      · simp
-      · split at hp
-        · obtain ⟨n, _, rfl⟩ := List.mem_map.mp hp; simp
-        · simp at hp
+      have hp' : (p.1, p.2) ∈ registered c := hp
+      rw [mem_registered] at hp'
+      rcases hp' with ⟨_, hr⟩ | ⟨hsv, _, _⟩ | ⟨_, hr, _⟩
+      · rw [hr]; simp [hs]
+      · simp [serverSide, hdup, hs] at hsv
+      · rw [hr]; simp
     simp [hm, hnone]
   · left
     have hm : muxMode c = .initiator := by simp [muxMode, hh, hs]
@@ -73,14 +113,12 @@ theorem responder_only_never_delivers_response (ids : List (String × Nat)) (c :
     have hnone : (registered c).find? (fun p => idOf ids p.1.key == some (field - 32768) && p.2 == Role.initiator) = none := by
       apply find_none_of_no_role
       intro p hp
-      unfold registered at hp
-      simp only [hs, clientSide, hdup, Bool.not_true, Bool.or_self, Bool.false_eq_true, ↓reduceIte,
-        List.append_nil, List.mem_append, List.mem_cons, List.not_mem_nil, or_false] at hp
-      rcases hp with rfl | hp
-      · simp
-      · split at hp
-        · obtain ⟨n, _, rfl⟩ := List.mem_map.mp hp; simp
-        · simp at hp
+      have hp' : (p.1, p.2) ∈ registered c := hp
+      rw [mem_registered] at hp'
+      rcases hp' with ⟨_, hr⟩ | ⟨_, hr, _⟩ | ⟨hcl, _, _⟩
+      · rw [hr]; simp [hs]
+      · rw [hr]; simp
+      · simp [clientSide, hdup, hs] at hcl
     simp [hm, hnone]
   · left
     have hm : muxMode c = .responder := by simp [muxMode, hh, hs]
@@ -159,7 +197,10 @@ def enabled (c : Cfg) (p : Proto) (r : Role) : Bool :=
   (p == .handshake && r == (if c.server then Role.responder else Role.initiator)) ||
   (protoEnabled c p && roleEnabled c r &&
     -- the keep-alive client is only started on request (WithKeepAlive)
-    !(p == .keepAlive && r == .initiator && !c.sendKeepAlives))
+    !(p == .keepAlive && r == .initiator && !c.sendKeepAlives) &&
+    -- with WithDelayProtocolStart the initiators register when the application starts them;
+    -- the responders must be there from the outset
+    !(r == .initiator && c.delayStart))
 
 
 /-- which mini-protocols setupConnection constructs = which the mode and version enable -/
@@ -167,46 +208,6 @@ theorem mem_constructed (c : Cfg) (p : Proto) : p ∈ constructed c ↔ protoEna
   unfold constructed protoEnabled
   cases hm : c.mode <;> cases hk : c.keepAlive <;> cases hps : c.peerSharing <;>
     cases hq : c.localQuery <;> cases ht : c.localTxMonitor <;> cases p <;> simp
-
-/-- membership in `registered`, spelled out -/
-theorem mem_registered (c : Cfg) (p : Proto) (r : Role) :
-    (p, r) ∈ registered c ↔
-      (p = .handshake ∧ r = (if c.server then Role.responder else Role.initiator)) ∨
-      (serverSide c = true ∧ r = .responder ∧ p ∈ constructed c) ∨
-      (clientSide c = true ∧ r = .initiator ∧ p ∈ constructed c ∧ (p ≠ .keepAlive ∨ c.sendKeepAlives = true)) := by
-  unfold registered
-  simp only [List.mem_append, List.mem_cons, List.not_mem_nil, or_false, Prod.mk.injEq]
-  constructor
-  · rintro ((h | h) | h)
-    · exact Or.inl h
-    · right; left
-      split at h
-      · rename_i hs
-        obtain ⟨n, hn, hq⟩ := List.mem_map.mp h
-        simp only [Prod.mk.injEq] at hq
-        exact ⟨hs, hq.2.symm, hq.1 ▸ hn⟩
-      · simp at h
-    · right; right
-      split at h
-      · rename_i hs
-        obtain ⟨n, hn, hq⟩ := List.mem_map.mp h
-        simp only [Prod.mk.injEq] at hq
-        have hf := List.mem_filter.mp hn
-        refine ⟨hs, hq.2.symm, hq.1 ▸ hf.1, ?_⟩
-        have h2 := hf.2
-        simp only [Bool.or_eq_true, bne_iff_ne, ne_eq] at h2
-        rw [← hq.1]; exact h2
-      · simp at h
-  · rintro (h | ⟨hs, hr, hp⟩ | ⟨hs, hr, hp, hk⟩)
-    · exact Or.inl (Or.inl h)
-    · left; right
-      simp only [hs, ↓reduceIte]
-      exact List.mem_map.mpr ⟨p, hp, by rw [hr]⟩
-    · right
-      simp only [hs, ↓reduceIte]
-      refine List.mem_map.mpr ⟨p, List.mem_filter.mpr ⟨hp, ?_⟩, by rw [hr]⟩
-      simp only [Bool.or_eq_true, bne_iff_ne, ne_eq]
-      exact hk
 
 /-- **Started only what was enabled, and everything that was enabled.** For every
     configuration, version-flag valuation, protocol and role: the (protocol, role) receiver is
@@ -308,6 +309,121 @@ theorem enabled_reachable (c : Cfg) (p : Proto) (r : Role) (h : (p, r) ∈ regis
   rw [hf]
   exact reachable_by c p r h
 
+/-! ### delayed start (WithDelayProtocolStart): before and after the application's Start() -/
+
+/-- **Every enabled responder is registered when setupConnection returns — whatever the start
+    options**: also with WithDelayProtocolStart, with or without WithKeepAlive. (A peer request
+    that arrives before the application calls `Start()` is then buffered, not answered with
+    "unknown protocol".) -/
+theorem responders_registered_before_start (c : Cfg) (p : Proto)
+    (hp : protoEnabled c p = true) (hr : roleEnabled c .responder = true) :
+    (p, Role.responder) ∈ registered c := by
+  rw [registered_iff_enabled]
+  unfold enabled
+  simp [hp, hr]
+
+/-- … and reachable: the segment carrying its id, response bit clear, is delivered to it. -/
+theorem responder_reachable_before_start (c : Cfg) (p : Proto)
+    (hp : protoEnabled c p = true) (hr : roleEnabled c .responder = true) :
+    ∃ id, idOf GV.Gen.ConnProtocols.ids p.key = some id ∧ id < 32768 ∧
+      route GV.Gen.ConnProtocols.ids c id = .deliver p .responder := by
+  obtain ⟨id, h1, h2, h3⟩ := enabled_reachable c p .responder (responders_registered_before_start c p hp hr)
+  exact ⟨id, h1, h2, h3⟩
+
+theorem protoEnabled_afterStart (c : Cfg) (p : Proto) : protoEnabled (afterStart c) p = protoEnabled c p := by
+  cases p <;> rfl
+theorem roleEnabled_afterStart (c : Cfg) (r : Role) : roleEnabled (afterStart c) r = roleEnabled c r := by
+  cases r <;> rfl
+theorem constructed_afterStart (c : Cfg) : constructed (afterStart c) = constructed c := rfl
+theorem serverSide_afterStart (c : Cfg) : serverSide (afterStart c) = serverSide c := rfl
+theorem clientSide_afterStart (c : Cfg) : clientSide (afterStart c) = clientSide c := rfl
+
+/-- Once the application has started the protocols, every enabled initiator is registered too
+    (the keep-alive client only with WithKeepAlive), and reachable (`enabled_reachable`). -/
+theorem initiators_registered_after_start (c : Cfg) (p : Proto)
+    (hp : protoEnabled c p = true) (hr : roleEnabled c .initiator = true)
+    (hk : p = .keepAlive → c.sendKeepAlives = true) :
+    (p, Role.initiator) ∈ registered (afterStart c) := by
+  rw [registered_iff_enabled]
+  have hd : (afterStart c).delayStart = false := rfl
+  have hs : (afterStart c).sendKeepAlives = c.sendKeepAlives := rfl
+  unfold enabled
+  rw [protoEnabled_afterStart, roleEnabled_afterStart, hp, hr, hd, hs]
+  by_cases hka : p = .keepAlive
+  · rw [hk hka]; simp
+  · simp [hka]
+
+/-- Starting never unregisters anything. -/
+theorem registered_mono_start (c : Cfg) (p : Proto) (r : Role) (h : (p, r) ∈ registered c) :
+    (p, r) ∈ registered (afterStart c) := by
+  have hd : (afterStart c).delayStart = false := rfl
+  have hs : (afterStart c).sendKeepAlives = c.sendKeepAlives := rfl
+  have hv : (afterStart c).server = c.server := rfl
+  rw [mem_registered] at h ⊢
+  rw [constructed_afterStart, serverSide_afterStart, clientSide_afterStart, hd, hs, hv]
+  rcases h with h | h | ⟨h1, h2, h3, h4⟩
+  · exact Or.inl h
+  · exact Or.inr (Or.inl h)
+  · right; right
+    simp only [Bool.and_eq_true] at h1
+    exact ⟨by simp [h1.1], h2, h3, h4⟩
+
+/-! ### regenerated tie: the registration / start blocks of setupConnection (go/ast) -/
+
+def allOn (m : NetMode) : Cfg :=
+  { server := true, mode := m, fullDuplex := true, sendKeepAlives := true, peerDM := false,
+    keepAlive := true, peerSharing := true, localQuery := true, localTxMonitor := true }
+def allOff (m : NetMode) : Cfg :=
+  { server := true, mode := m, fullDuplex := true, sendKeepAlives := false, peerDM := false,
+    keepAlive := false, peerSharing := false, localQuery := false, localTxMonitor := false }
+
+/-- the Connection field a mini-protocol lives in -/
+def fieldOf : Proto → String
+  | .handshake => "handshake" | .chainSyncNtN => "chainSync" | .chainSyncNtC => "chainSync"
+  | .blockFetch => "blockFetch" | .txSubmission => "txSubmission"
+  | .localTxSubmission => "localTxSubmission" | .localStateQuery => "localStateQuery"
+  | .keepAlive => "keepAlive" | .localTxMonitor => "localTxMonitor" | .peerSharing => "peerSharing"
+  | .leiosNotify => "leiosNotify" | .leiosFetch => "leiosFetch" | .leiosVotes => "leiosVotes"
+  | .localMessageSubmission => "localMessageSubmission"
+  | .localMessageNotification => "localMessageNotification"
+
+def branchName : NetMode → String | .ntn => "ntn" | .ntc => "ntc" | .dmq => "dmq"
+
+/-- a protocol whose construction depends on a version flag is guarded by its own nil check,
+    nothing else; the model decides which protocols those are -/
+def nilGuard (m : NetMode) (p : Proto) : String :=
+  if p ∈ constructed (allOff m) then "" else "c." ++ fieldOf p ++ " != nil"
+
+/-- the client start is additionally guarded by WithKeepAlive exactly where the model's
+    `registered` drops the initiator without it -/
+def clientGuard (m : NetMode) (p : Proto) : String :=
+  if (p, Role.initiator) ∈ registered { allOn m with server := false, sendKeepAlives := false } then nilGuard m p
+  else nilGuard m p ++ " && c.sendKeepAlives"
+
+/-- what the model says the three blocks of each mode branch of setupConnection look like -/
+def expectedCalls : List (String × String × String × String × String × String) :=
+  [NetMode.ntn, NetMode.dmq, NetMode.ntc].flatMap fun m =>
+    ((constructed (allOn m)).map fun p =>
+      (branchName m, "(c.fullDuplex && handshakeFullDuplex) || c.server", fieldOf p, "Server",
+        "EnsureRegistered", nilGuard m p)) ++
+    ((constructed (allOn m)).map fun p =>
+      (branchName m, "!c.delayProtocolStart ; (c.fullDuplex && handshakeFullDuplex) || !c.server", fieldOf p,
+        "Client", "Start", clientGuard m p)) ++
+    ((constructed (allOn m)).map fun p =>
+      (branchName m, "!c.delayProtocolStart ; (c.fullDuplex && handshakeFullDuplex) || c.server", fieldOf p,
+        "Server", "Start", nilGuard m p))
+
+/-- **Regenerated tie.** Every `EnsureRegistered` / `Start` call of setupConnection, with the
+    conditions it stands under (read off connection.go on every run), is exactly what the model
+    prescribes: responders are registered early under the role condition alone and their own nil
+    check — in particular not under `delayProtocolStart` and not under `sendKeepAlives` —; both
+    start blocks are under `!c.delayProtocolStart`; only the keep-alive client asks for
+    `sendKeepAlives`. -/
+theorem roleCalls_as_modelled :
+    (∀ e ∈ GV.Gen.ConnSetupFacts.roleCalls, e ∈ expectedCalls) ∧
+    (∀ e ∈ expectedCalls, e ∈ GV.Gen.ConnSetupFacts.roleCalls) := by
+  decide
+
 /-- The muxer constants of the running code are the ones the model's `MuxMode` stands for. -/
 theorem mux_constants :
     GV.Gen.ConnProtocols.responseFlag = 32768 ∧ GV.Gen.ConnProtocols.muxModeInitiator = 1 ∧
@@ -315,14 +431,14 @@ theorem mux_constants :
 
 /-- Non-vacuity: an initiator-only NtN client (keep-alive requested, version with keep-alive and
     peer sharing) registers exactly its client roles. -/
-example : registered ⟨false, .ntn, false, true, true, true, true, false, false⟩ =
+example : registered ⟨false, .ntn, false, true, true, true, true, false, false, false⟩ =
     [(.handshake, .initiator), (.chainSyncNtN, .initiator), (.blockFetch, .initiator), (.txSubmission, .initiator),
      (.keepAlive, .initiator), (.peerSharing, .initiator), (.leiosNotify, .initiator), (.leiosFetch, .initiator),
      (.leiosVotes, .initiator)] := by decide
 
 /-- Non-vacuity: duplex is negotiated only when both ends ask for it. -/
-example : negotiatedDuplex ⟨false, .ntn, true, false, false, true, true, false, false⟩ = true ∧
-          negotiatedDuplex ⟨false, .ntn, false, false, false, true, true, false, false⟩ = false ∧
-          negotiatedDuplex ⟨false, .ntc, true, false, false, false, false, true, true⟩ = false := by decide
+example : negotiatedDuplex ⟨false, .ntn, true, false, false, true, true, false, false, false⟩ = true ∧
+          negotiatedDuplex ⟨false, .ntn, false, false, false, true, true, false, false, false⟩ = false ∧
+          negotiatedDuplex ⟨false, .ntc, true, false, false, false, false, true, true, false⟩ = false := by decide
 
 end GV.Props.C17
